@@ -105,9 +105,9 @@ var props = map[string]propCfg{
 		Assumptions:  []string{"for LeaseSet2 / MetaLeaseSet the observation leaves out Options(), entry Properties() and the serialisers/verifier that include them (the property exempts the options mappings)", "only frames the parser accepts are kept as live values", "accessors not documented to return copies are never scribbled"},
 		Components:   comps(map[string]string{"transport": "simulated: owns and recycles the receive buffers, corrupts stored bytes at arbitrary instants", "consumer": "harness code: calls the library parser on the buffer slice, keeps the value, observes it by reflection", "clock": "synctest bubble (fixed instant)"}),
 		TimeoutQuick: 5 * time.Minute, TimeoutThoro: 90 * time.Minute},
-	"C03": {World: "stream", QuickRuns: 4000, ThoroughRuns: 200000,
+	"C03": {World: "stream", QuickRuns: 4000, ThoroughRuns: 300000,
 		Rule:         "one run = one simulated connection: 1..12 reference-encoded frames for randomly chosen remainder-returning entry points (37 of them), delivered as a byte stream cut at scripted offsets (biased by the reference field map to length/count fields and extent-1/extent/extent+1), at a fixed MSS down to 1 byte, coalesced, or reset at a byte offset; or as datagrams followed by 0..64 bytes of padding of six kinds, some truncated. The receiver frames the stream with the library's own remainders only. Non-trivial = at least one cut, reset, padding or truncation fired; distinct = distinct run fingerprints (SHA-256 over every parse attempt's (frame, buffered bytes, success, remainder length)).",
-		Assumptions:  []string{"only frames the parser accepts when given exactly the reference encoding are sent (C03 quantifies over accepted inputs); rejected reference frames are counted as probes", "success per entry point: err == nil; ReadInteger: result of the requested length; ReadMapping/NewMapping: no error other than the documented 'data exists beyond length of mapping' warning", "Certificate.RawBytes/ExcessBytes and KeyCertificate.Data are documented to expose bytes beyond the declared length and are left out of the 'same value' comparison", "the structure extent is the reference encoder's length"},
+		Assumptions:  []string{"only frames the parser accepts when given exactly the reference encoding are sent (C03 quantifies over accepted inputs); rejected reference frames are counted as probes", "success per entry point: err == nil; ReadInteger: result of the requested length; ReadMapping/NewMapping: no error other than the documented 'data exists beyond length of mapping' warning", "Certificate.RawBytes/ExcessBytes and KeyCertificate.Data are documented to expose bytes beyond the declared length and are left out of the 'same value' comparison; RouterInfo.String is left out for cost (quadratic in the size of the structure)", "a reference frame the parser refuses alone is parsed again followed by continuations; whatever is accepted then must consume exactly the frame's extent", "every accepted frame is also parsed from a slice with spare capacity holding a plausible continuation", "the structure extent is the reference encoder's length"},
 		Components:   comps(map[string]string{"transport": "simulated: in-process byte stream / datagram queue with segmentation, coalescing, reset, padding, truncation (stub for NTCP2/SSU2, which are not in this repository)", "receiver": "harness code: append to buffer, call the expected Read* function, keep the remainder", "clock": "synctest bubble (fixed instant) so that time-dependent accessors in the observation vector are deterministic"}),
 		TimeoutQuick: 5 * time.Minute, TimeoutThoro: 90 * time.Minute},
 	"C15": {World: "clock", QuickRuns: 6000, ThoroughRuns: 5000000,
